@@ -62,11 +62,11 @@ type flowModel struct {
 	touched   map[common.Address]bool
 	problems  []string
 
-	liveSD    int // self-destructs not undone by a failed frame
+	liveSD                                                    int // self-destructs not undone by a failed frame
 	nFrames, nFailed, nValue, nSD, nSDSelf, nCreate, maxDepth int
-	topErr    error
-	topSeen   bool
-	failKinds map[string]int
+	topErr                                                    error
+	topSeen                                                   bool
+	failKinds                                                 map[string]int
 }
 
 func newFlowModel(pre func(common.Address) *big.Int) *flowModel {
